@@ -176,7 +176,7 @@ func runC14(r *Report, tier string) {
 		SIZE := "call<%>(res<0>(" + EC2 + "))"
 		seen := map[int64]bool{}
 		for _, mp := range P.putInstances(enc, factSet{}, 0) {
-			if mp.key != -2 && mp.key != -3 {
+			if mp.key != -2 && mp.key != -3 && mp.key != -4 {
 				continue
 			}
 			// padded values only: computed values, not the stored coordinate itself
@@ -185,11 +185,11 @@ func runC14(r *Report, tier string) {
 				raw = mi.X
 			}
 			switch raw.(type) {
-			case *ssa.Call, *ssa.Extract, *ssa.MakeSlice:
+			case *ssa.Call, *ssa.Extract, *ssa.MakeSlice, *ssa.Slice:
 			default:
 				continue
 			}
-			idx := map[int64]string{-2: "1", -3: "2"}[mp.key]
+			idx := map[int64]string{-2: "1", -3: "2", -4: "3"}[mp.key]
 			V := "res<" + idx + ">(" + EC2 + ")"
 			o := r.ob("R14.3", fmt.Sprintf("Key.MarshalCBOR:pad:%d", mp.key), mp.fn, mp.instr, "padded coordinate is zeros(size-len(v)) ++ v for the coordinate of this label, under 0 < len(v) < size")
 			pi, why := P.leftPadE(mp.eng, mp.fn, raw, 0)
@@ -346,6 +346,20 @@ func runC14(r *Report, tier string) {
 			r.ob("R14.7", fmt.Sprintf("Key.%s:refusal:%s", name, pathID(p)), fn, p.ret, "a key that passed the consistency check is refused only for a missing coordinate (compressed point) or an unsupported algorithm").check(why == "", truncate(et.String(), 80), why)
 		}
 		r.floor("R14.7", nf, 3, "failure paths of Key."+name)
+	}
+
+	// ... and that verdict is about the key material, not about how the key
+	// may be used: the consistency check's call tree does not read key_ops
+	// (the public half of a sign-only private key converts like any other)
+	{
+		val := P.keyValidate()
+		var bad []string
+		for _, f := range P.fieldsRead(val, 0) {
+			if f == "Ops" || strings.HasPrefix(f, "Ops.") {
+				bad = append(bad, f)
+			}
+		}
+		r.ob("R14.7", shortFn(val)+":control-footprint", val, nil, "the consistency check (and with it PublicKey / PrivateKey) does not depend on key_ops").check(len(bad) == 0, fmt.Sprintf("receiver fields read: %v", P.fieldsRead(val, 0)), "the consistency check reads "+strings.Join(bad, ", ")+": converting a key back then depends on its key_ops")
 	}
 
 	// R14.8: the key decoder reads everything the key encoder writes: extra
